@@ -64,7 +64,10 @@ Section Buf.
       (0 < off -> a = [] -> contig = 0 /\ a' <> []) /\
       (off = 0 -> a = [] -> contig = l_len payload /\ a' = []) /\
       (forall f, off = 0 -> F = Some f -> c + rb_len rx + l_len payload = f ->
-                 contig = l_len payload).
+                 contig = l_len payload) /\
+      (forall i, 0 <= i < rb_cap rx ->
+                 ~ (rb_len rx + off <= i < rb_len rx + off + l_len payload) ->
+                 rb_cell rx2 i = rb_cell rx i).
   Proof.
     intros (Hwf & Hcap & Hawf & Halen & Hc & HI1 & HI2 & Hhave & HF) Hmono Hoff Hlen Hfit Hpay HFpay Hat Hw.
     set (size := l_len payload) in *.
@@ -187,8 +190,12 @@ Section Buf.
       split; [exact Ec|]. apply no_tracked_nil; [exact Hawf'|].
       intros o Ho. destruct (Ha' o Ho) as (Htu & Ho0). apply Hmem in Htu.
       destruct Htu as [Ht|Ht]; [exact (tracked_nil _ Ht) | lia].
-    - intros f Hoff0 Hf Heq. apply Hnot_beyond; [|exact Hoff0].
-      intros Ht. destruct (HF f Hf) as (_ & Hb). specialize (Hb size Ht). lia.
+    - split.
+      + intros f Hoff0 Hf Heq. apply Hnot_beyond; [|exact Hoff0].
+        intros Ht. destruct (HF f Hf) as (_ & Hb). specialize (Hb size Ht). lia.
+      + intros i Hi Hout. rewrite Hcell2, Hcell1 by exact Hi.
+        destruct (Z.leb_spec (rb_len rx + off) i); destruct (Z.ltb_spec i (rb_len rx + off + size));
+          cbn [andb]; try reflexivity. lia.
   Qed.
 
   (* --- recv: dequeue_slice hands out S[c .. c+k) and shifts the rest --- *)
